@@ -110,8 +110,9 @@ func libValidate(c *e2eCase, air []byte) (*lorawan.PHYPayload, bool, error) {
 
 // libValidateDir: the receiver validates with the function for the direction it expects (asUplink).
 func libValidateDir(c *e2eCase, air []byte, asUplink bool) (*lorawan.PHYPayload, bool, error) {
-	var q lorawan.PHYPayload
-	if err := q.UnmarshalBinary(append([]byte{}, air...)); err != nil {
+	// half of the frames are received in a loop: one variable, the decoded value kept by value, the variable decodes the next frame
+	q, err := gen.Receive(air, len(air) > 0 && air[len(air)-1]&1 == 1)
+	if err != nil {
 		return nil, false, err
 	}
 	m, ok := q.MACPayload.(*lorawan.MACPayload)
@@ -121,7 +122,6 @@ func libValidateDir(c *e2eCase, air []byte, asUplink bool) (*lorawan.PHYPayload,
 	// the receiver knows the upper 16 bits of the counter
 	m.FHDR.FCnt = c.F.FCnt&0xffff0000 | m.FHDR.FCnt&0xffff
 	var valid bool
-	var err error
 	if asUplink {
 		valid, err = q.ValidateUplinkDataMIC(ver(c.V11), c.ConfFCnt, c.TxDR, c.TxCh, gen.LibKey(toKey(c.FNwk)), gen.LibKey(toKey(c.SNwk)))
 	} else {
